@@ -1,10 +1,10 @@
 (* C20 - Tag authentication and MAC-protected reads cannot be fooled.
-   Only statements here; proofs are in Proofs/AuthMac.v, AuthTag.v, AuthNtag.v, AuthDefects.v, DesKat.v.
+   Only statements here; proofs are in Proofs/AuthMac.v, AuthTag.v, AuthLiteS.v, AuthNtag.v, AuthDefects.v, DesKat.v.
    Models: Model/Des.v (FIPS 46-3 DES, 2-key 3DES-CBC), Model/FelicaMac.v (reader over an abstract
    channel `xchg`, card model `ftag`, `honest` = the undisturbed channel), Model/Ntag.v. *)
 From Coq Require Import ZArith List Bool.
 From NV Require Import Base.Result Base.Bytes Base.PyPrims Model.Des Model.FelicaMac Model.Ntag Model.AuthRun
-  Proofs.DesKat Proofs.AuthMac Proofs.AuthTag Proofs.AuthNtag Proofs.AuthDefects.
+  Proofs.DesKat Proofs.AuthMac Proofs.AuthTag Proofs.AuthLiteS Proofs.AuthNtag Proofs.AuthDefects.
 Import ListNotations.
 Open Scope Z_scope.
 
@@ -111,13 +111,33 @@ Theorem C20_protect_then_auth_lite : forall tg st pw pf rc,
 Proof. exact lite_protect_then_auth. Qed.
 Print Assumptions C20_protect_then_auth_lite.
 
-(* FeliCa Lite-S (mutual authentication, write_with_mac inside protect): PARTIAL - the Lite-S reader
-   and card models are executable and compared with the implementation on every run, the generic
-   theorems above (mac_read_sound, auth_any_channel) cover its read_with_mac and first phase, but
-     forall tg st pw pf rc rc', lites card with writable system blocks ->
-       lites_protect honest idm true (Some pw) rp pf rc (tg, st) = (s1, Ok PTrue) /\
-       snd (lites_authenticate honest idm true pw rc' s1) = Ok true
-   is not proved (missing: symbolic execution of the MAC_A write / STATE read against the card model). *)
+(* --- FeliCa Lite-S: mutual authentication (internal authentication, MAC_A-protected write of the
+       STATE block, MAC read back) with a card holding the key (modulo parity) succeeds; the reader
+       ends authenticated with the session key and the card with EXT_AUTH set and WCNT incremented --- *)
+Theorem C20_auth_same_key_lites : forall tg st rep pw rc key,
+  ft_wf tg -> ft_lites tg = true -> length rc = 16%nat -> felica_key pw = Ok key -> key_equiv key (ft_ck tg) ->
+  lites_authenticate honest (ft_idm tg) rep pw rc (tg, st) =
+    ((after_mac_write (with_rc tg rc) 146 (1 :: zeros 15),
+      mkR (Some (session_key key rc)) (Some (firstn 8 rc)) true), Ok true).
+Proof. exact lites_auth_same_key. Qed.
+Print Assumptions C20_auth_same_key_lites.
+
+(* --- protect_then_auth, FeliCa Lite-S (repaired code; byte-string password): protect(pw) on a card
+       whose system blocks are writable returns True and a following authenticate(pw) returns True --- *)
+Theorem C20_protect_then_auth_lites : forall tg st pw rp pf rc rc',
+  ft_wf tg -> ft_lites tg = true -> nth 2 (ft_mem tg 136) 0 = 255 -> pw_len_bad (Some pw) = false -> 0 <= pf ->
+  length rc = 16%nat -> length rc' = 16%nat ->
+  exists s1, lites_protect honest (ft_idm tg) true (Some pw) rp pf rc (tg, st) = (s1, Ok PTrue) /\
+             snd (lites_authenticate honest (ft_idm tg) true pw rc' s1) = Ok true.
+Proof. exact lites_protect_then_auth. Qed.
+Print Assumptions C20_protect_then_auth_lites.
+(* For a card holding ANOTHER key the first phase of FelicaLiteS.authenticate is FelicaLite.authenticate,
+   so C20_auth_iff_mac / C20_auth_other_key apply unchanged (lites_authenticate returns False as soon as
+   lite_authenticate does). *)
+Theorem C20_lites_auth_first_phase : forall (T : Type) (xchg : T -> list Z -> T * xres) idm rep pw rc (s s' : T * rstate),
+  lite_authenticate xchg idm pw rc s = (s', Ok false) -> lites_authenticate xchg idm rep pw rc s = (s', Ok false).
+Proof. exact @lites_auth_first_phase. Qed.
+Print Assumptions C20_lites_auth_first_phase.
 
 (* --- NTAG21x: PWD_AUTH is an exact comparison of all 48 bits --- *)
 Theorem C20_ntag_auth_exact : forall tg st pw key,
@@ -161,5 +181,6 @@ Example C20_nonvacuous :
   snd (lite_authenticate honest w_idm pw w_rc (tg, rstate0)) = Ok true /\
   nth 2 (ft_mem (blank_tag false w_idm w_rc) 136) 0 = 255 /\
   snd (lite_protect honest w_idm (Some w_key) false 0 (blank_tag false w_idm w_rc, rstate0)) = Ok PTrue /\
+  snd (lites_protect honest w_idm true (Some w_key) true 0 w_rc (blank_tag true w_idm w_rc, rstate0)) = Ok PTrue /\
   snd (ntag_protect nhonest nsense_present 41 [1; 2; 3; 4; 5; 6] true 4 (ntag_blank 41, nstate0)) = Ok true.
 Proof. vm_compute. repeat split. Qed.
